@@ -7,6 +7,8 @@ class AttrDict(dict):
         try:
             return self[k]
         except KeyError:
+            if k.startswith("has_"):        # ghost field of the Issue model: "the key is present"
+                return k[4:] in self
             raise AttributeError(k)
 
 
@@ -39,9 +41,51 @@ class _Obj:
         self.__dict__.update(kw)
 
 
+def _recording_format_error():
+    """context: ErrorHandler.format_error also records the internal kind and the char_index it was asked to print (ghost views)"""
+    import contextlib
+    from hed.errors.error_reporter import ErrorHandler
+
+    @contextlib.contextmanager
+    def cm():
+        real = ErrorHandler.format_error
+
+        def fmt(error_type, *a, **kw):
+            out = real(error_type, *a, **kw)
+            for i in out:
+                i["kind"] = error_type
+                if "char_index" in kw:
+                    i["msg_char_index"] = kw["char_index"]
+            return out
+        ErrorHandler.format_error = staticmethod(fmt)
+        try:
+            yield
+        finally:
+            ErrorHandler.format_error = staticmethod(real)
+    return cm()
+
+
 def char_validator_method(fn, args):
     from hed.validator.util.char_util import CharValidator
     a = dict(args)
     me = a.pop("self")
     v = CharValidator(modern_allowed_char_rules=me._validate_characters)
-    return _wrap(fn(v, **a))
+    with _recording_format_error():
+        return _wrap(fn(v, **a))
+
+
+def attribute_validator(fn, args):
+    """schema attribute validators: issues are returned as objects that also carry the internal kind (first argument of format_error)"""
+    from hed.errors.error_reporter import ErrorHandler
+    real = ErrorHandler.format_error
+
+    def fmt(error_type, *a, **kw):
+        out = real(error_type, *a, **kw)
+        for i in out:
+            i["kind"] = error_type
+        return out
+    ErrorHandler.format_error = staticmethod(fmt)
+    try:
+        return _wrap(fn(**args))
+    finally:
+        ErrorHandler.format_error = staticmethod(real)
